@@ -312,7 +312,17 @@ func RunC1(rc *RunCtx, sc *C1) *C1Outcome {
 		}
 		off := 0
 		var segs []seg
-		for _, ch := range sc.Chunks {
+		for i, ch := range sc.Chunks {
+			if sc.Endless && i == 1 {
+				// a flood that never ends: everything after the first chunk arrives as one run that is longer than any
+				// read asks for (the transport tops it up whenever it runs dry), so every read is filled to the brim
+				run := append([]byte(nil), sc.Reply[off:]...)
+				for k := 0; k < 8192; k++ {
+					run = append(run, byte(0x3c^k))
+				}
+				segs = append(segs, seg{data: run, gap: ch.Gap, solo: true})
+				break
+			}
 			segs = append(segs, seg{data: sc.Reply[off : off+ch.N], gap: ch.Gap, solo: true, err: ch.Err})
 			off += ch.N
 		}
@@ -551,7 +561,14 @@ func RunC1(rc *RunCtx, sc *C1) *C1Outcome {
 	s.Run()
 	out.Hang = s.Hang
 	out.OverStep = s.OverStep
+	// what had returned when the run ended; a call that comes back only because the simulation is being torn down
+	// (its transport calls are released with errors then) did not return
+	returned, nnext := out.Returned, len(out.Next)
 	s.Drain()
+	out.Returned = returned
+	if len(out.Next) > nnext {
+		out.Next = out.Next[:nnext]
+	}
 	if len(s.Panics) > 0 {
 		out.Panic = &s.Panics[0]
 	}
